@@ -137,7 +137,7 @@ func ruleCharUnit(c *Ctx) {
 		}
 	}
 	c.atLeast("functions with character-mode blocks", nRegions, 2)
-	c.atLeast("character-mode helpers", nHelpers, 2)
+	c.atLeast("character-mode helpers", nHelpers, 1)
 	c.atLeast("uses of the language's UTF-8 decoder in character mode", nDecoders, 3) // the byte/character choice may be shared by one helper
 	if len(idx) == 0 {
 		c.ok("charunit:decoder", token.NoPos, "character-mode code (%d functions, helpers %s) decodes only with range/unicode/utf8 (%d uses); no string is indexed by byte there", nRegions, strings.Join(hn, ", "), nDecoders)
